@@ -208,6 +208,9 @@ structure St where
   errKinds : List String := []
   dupAdmitted : Nat := 0
   foreignResolved : Nat := 0
+  /-- after a bulk delete: hash ↦ (status before, may the payment itself disappear). -/
+  bulkPending : List (Nat × Nat × Bool) := []
+  bulkDeletes : Nat := 0
   -- `kind=contract` cases must respect the caller contract of `backend_equivalence`
   contract : Bool := false
   contractOps : Nat := 0
@@ -436,6 +439,7 @@ def step (s : St) (line : String) : IO St := do
   | "CASE" :: id :: rest =>
     let isConc := (kv? rest "kind") == some "conc"
     let s := { s with contract := (kv? rest "kind") == some "contract" }
+    let s := { s with bulkPending := [] }
     let s := { s with caseId := id, store := Store.empty, mon := [], lastSt := [], dup := false,
                       cases := s.cases + 1, conc := isConc, cRegs := [], cRes := [], cInit := [],
                       cFail := [], cDel := [], cDelFailed := [], cFinal := [], concCases := s.concCases + (if isConc then 1 else 0) }
@@ -453,7 +457,8 @@ def step (s : St) (line : String) : IO St := do
     let ans := answer ws
     let impl := ans.headD "?"
     let implStr := " ".intercalate ans
-    let some hN := (if opName == "inflight" then some 0 else kvNat? ws "h") | mismatch s s!"unparsed line: {line.take 80}"
+    let global := opName == "inflight" || opName == "delall" || opName == "list"
+    let some hN := (if global then some 0 else kvNat? ws "h") | mismatch s s!"unparsed line: {line.take 80}"
     let mut s := bumpErr { s with ops := s.ops + 1 } impl
     if s.samples < 6 then
       IO.println s!"SAMPLE case={s.caseId} {line.take 200}"
@@ -484,6 +489,18 @@ def step (s : St) (line : String) : IO St := do
       let m := "ok set=" ++ (if set.isEmpty then "-" else ",".intercalate (set.map toString))
       if m != implStr then
         s ← mismatch s s!"inflight: model={m} impl={implStr}"
+    else if opName == "list" then
+      let l := s.store.listing ((kvNat? ws "incl") == some 1) [0, 1, 2]
+      let m := "ok set=" ++ (if l.isEmpty then "-" else ",".intercalate (l.map (fun (h, st) => s!"{h}:{statusNum st}")))
+      if m != implStr then
+        s ← mismatch s s!"list: model={m} impl={implStr}"
+    else if opName == "delall" then
+      let fo := (kvNat? ws "fo") == some 1
+      let fho := (kvNat? ws "fho") == some 1
+      let m := s!"ok n={s.store.bulkCount fo fho [0, 1, 2]}"
+      if m != implStr then
+        s ← mismatch s s!"delall fo={fo} fho={fho}: model={m} impl={implStr}"
+      s := { s with store := (C16.step s.backend s.store (Op.delAll fo fho)).1 }
     else
       match modelOp with
       | none => s ← mismatch s s!"unparsed line: {line.take 80}"
@@ -607,7 +624,47 @@ def step (s : St) (line : String) : IO St := do
             s := { s with mon := mdel s.mon hN, lastSt := ldel s.lastSt hN }
           else
             s := { s with mon := mset s.mon hN { m with ledger := m.ledger.filter (·.st != "F") } }
+    | "delall" =>
+      if impl == "ok" then
+        let fo := (kvNat? ws "fo") == some 1
+        let fho := (kvNat? ws "fho") == some 1
+        s := { s with bulkDeletes := s.bulkDeletes + 1 }
+        -- which payments DeletePayments may act on, from the monitor's own ledger: never an
+        -- in-flight one; with failedOnly only a failed one
+        let acts := fun (m : MP) => m.status != 2 && (!fo || m.status == 4)
+        let hit := s.mon.filter (fun (_, m) => acts m)
+        let n := (kvNat? ans "n").getD 0
+        let allowed := if fho then 0 else hit.length
+        if n > allowed then
+          s ← monitor s "bulk-delete" s!"DeletePayments(failedOnly={fo},failedHtlcsOnly={fho}) reports {n} payments deleted but only {allowed} may be (statuses {s.mon.map (fun (h, m) => (h, m.status))})"
+        -- remember what each payment looked like; the fetches that follow are judged against it
+        s := { s with bulkPending := s.mon.map (fun (h, m) => (h, m.status, acts m && !fho)) }
+        let mon' := s.mon.filterMap (fun (h, m) =>
+          if acts m then
+            if fho then some (h, { m with ledger := m.ledger.filter (·.st != "F") }) else none
+          else some (h, m))
+        s := { s with mon := mon', lastSt := s.lastSt.filter (fun (h, _) => mon'.any (·.1 == h)) }
+    | "list" =>
+      if impl == "ok" then
+        let incl := (kvNat? ws "incl") == some 1
+        let want := ([0, 1, 2] : List Nat).filterMap (fun h => match mget s.mon h with
+          | some m => if incl || m.status == 3 then some s!"{h}:{m.status}" else none
+          | none => none)
+        let wantS := if want.isEmpty then "-" else ",".intercalate want
+        if (kv? ans "set") != some wantS then
+          s ← monitor s "listing" s!"QueryPayments(IncludeIncomplete={incl})={(kv? ans "set").getD "?"} but the payments (hash:status) are {wantS}"
     | "fetch" =>
+      match s.bulkPending.find? (·.1 == hN) with
+      | some (_, stBefore, mayGo) =>
+        s := { s with bulkPending := s.bulkPending.filter (·.1 != hN) }
+        if impl == "NotInitiated" && !mayGo then
+          s ← monitor s "bulk-delete" s!"h={hN} payment with status {stBefore} was deleted by DeletePayments (only failed payments with failedOnly, never in-flight ones, none with failedHtlcsOnly)"
+        match dump, mget s.mon hN with
+        | some d, some m =>
+          if dumpKey d != ledgerKey m.ledger then
+            s ← monitor s "bulk-delete" s!"h={hN} (status {stBefore}) attempts after DeletePayments {dumpKey d}, allowed {ledgerKey m.ledger} (only failed attempts of terminal payments may be removed)"
+        | _, _ => pure ()
+      | none => pure ()
       if impl == "NotInitiated" && mp.isSome then
         s ← monitor s "fetch-truth" s!"h={hN} an initiated payment is reported as not initiated"
     | "inflight" =>
@@ -621,7 +678,7 @@ def step (s : St) (line : String) : IO St := do
     | _ => pure ()
     -- dump clauses (after the ledger update so that the dump is compared with the new history)
     match dump with
-    | some d => if opName != "inflight" then s ← checkDump s hN d
+    | some d => if !global then s ← checkDump s hN d
     | none => pure ()
     return s
 
@@ -652,6 +709,7 @@ def main (args : List String) : IO Unit := do
   IO.println s!"STAT statuses_seen={s.stSeen.length}"
   IO.println s!"STAT dup_ids_admitted={s.dupAdmitted}"
   IO.println s!"STAT foreign_attempts_resolved={s.foreignResolved}"
+  IO.println s!"STAT bulk_deletes={s.bulkDeletes}"
   IO.println s!"STAT contract_ops_respecting={s.contractOps}"
   IO.println s!"STAT concurrent_cases={s.concCases}"
   IO.println s!"STAT concurrent_ops={s.concOps}"
